@@ -32,6 +32,8 @@ var c14Plan = []planEntry{
 	{spaces.XMlRef, 5, 6},
 	{spaces.XRefHead, 5, 6},
 	{spaces.XInfo, 4, 5},
+	{spRawAttr, 6, 7},
+	{spRawTag, 5, 6},
 }
 
 var c14Pads = []string{"\n", "\r\n", " \n", "\t\n\n", "\r"}
